@@ -128,6 +128,8 @@ impl Heap {
     }
 
     pub fn get_mut(&mut self, id: usize) -> Option<&mut HeapValue> {
+        #[cfg(feature = "verif-hooks")]
+        crate::verif_hooks::on_heap_mut(id);
         self.values.get_mut(id)
     }
 }
